@@ -27,8 +27,10 @@ SOURCES = [
     "src/ampform/kinematics/angles.py", "src/ampform/kinematics/lorentz.py", "src/ampform/dynamics/builder.py",
 ]
 SOUND = {"zeroDefs": "r", "regCombTopos": True, "selCoversComb": True, "perChainSyms": True}
-N_CASES = {"quick": {"corpus_cfgs": 5, "synthetic": 110, "malformed": 14, "four_axis": 8, "cost_cap": 400, "time_cap": 60, "oracle_extra": 60},
-           "thorough": {"corpus_cfgs": 25, "synthetic": 1200, "malformed": 100, "four_axis": 50, "cost_cap": 800, "time_cap": 120, "oracle_extra": 400}}
+N_CASES = {"quick": {"corpus_cfgs": 4, "synthetic": 90, "malformed": 12, "four_axis": 8, "cost_cap": 400, "time_cap": 60, "oracle_extra": 60,
+                     "histories": 10, "roundtrip_every": 5, "collide": 8, "hash_seeds": [1, 2], "hash_cases": 4},
+           "thorough": {"corpus_cfgs": 25, "synthetic": 950, "malformed": 100, "four_axis": 50, "cost_cap": 800, "time_cap": 120, "oracle_extra": 400,
+                        "histories": 80, "roundtrip_every": 4, "collide": 60, "hash_seeds": [1, 2, 3, 4, 5], "hash_cases": 12}}
 
 
 # --------------------------------------------------------------------------- cases
@@ -53,16 +55,21 @@ def make_case(R, corpus, kind: str, case_seed: int, cost_cap: int, corpus_name: 
                 keep = sorted(rng.sample(obs, rng.randint(1, len(obs) - 1)))
                 restriction = (i, [str(x) for x in keep])
                 reaction = R.restrict(reaction, i, set(keep))
+    elif kind == "corpus_axis":  # every corpus reaction with AxisAngleAlignment (massless / spinful states below a resonance)
+        reaction = corpus[corpus_name]
     elif kind == "synthetic4axis":  # four-body x axis-angle (Wigner rotations, comma suffixes) made affordable
         reaction = R.synthetic_reaction(rng, max_transitions=6, nfs=4, max_spin2=1)
     else:
-        reaction = R.synthetic_reaction(rng)
+        for _ in range(6):  # spins 3/2 and 2 on every outer state make even the unaligned model large: redraw
+            reaction = R.synthetic_reaction(rng)
+            if R.unfold_cost(reaction, "n") <= 2 * cost_cap:
+                break
     aligns = ["n", "n", "a", "a", "d1", "d2", "d3"]
-    align = "a" if kind == "synthetic4axis" else rng.choice(aligns)
+    align = "a" if kind in {"synthetic4axis", "corpus_axis"} else rng.choice(aligns)
     malformed = kind == "malformed"
     if align.startswith("d") and len(reaction.final_state) != 3:
         align = "n"
-    if R.unfold_cost(reaction, align) > cost_cap:
+    if R.unfold_cost(reaction, align) > (3 * cost_cap if kind == "corpus_axis" else cost_cap):
         align = "n"
     if align.startswith("d"):
         reaction = R.relabel_for_dpd(reaction)
@@ -157,6 +164,96 @@ def diff_answers(real: dict, lean: dict) -> dict:
     return out
 
 
+def make_history(R, corpus, hist_seed: int, cost_cap: int) -> dict:
+    """reaction + three configurations for ONE builder: A, B, A-again (alignments that the reaction admits without
+    relabelling; `permutate_registered_topologies` at most once; dynamics accumulate)."""
+    rng = random.Random(hist_seed)
+    name = None
+    if rng.random() < 0.5:
+        name = rng.choice(sorted(corpus))
+        reaction = corpus[name]
+    else:
+        for _ in range(6):
+            reaction = R.synthetic_reaction(rng, max_transitions=8)
+            if R.unfold_cost(reaction, "n") <= cost_cap:
+                break
+    if R.unfold_cost(reaction, "n") > 2 * cost_cap:
+        reaction = corpus["jpsi_gpi0pi0_hel"]
+        name = "jpsi_gpi0pi0_hel"
+    aligns = ["n"] + (["a"] if R.unfold_cost(reaction, "a") <= cost_cap else [])
+    a = R.random_config(rng, reaction, rng.choice(aligns))
+    b = R.random_config(rng, reaction, rng.choice(aligns))
+    again = {**a, "dyn": [], "perm": False}
+    return {"reaction": reaction, "corpus": name, "cfgs": [a, b, again]}
+
+
+def collide_oracle(R, c: dict) -> list[dict]:
+    import logging
+
+    r = c["reaction"]
+    cfg = {**c["cfg"], "dyn": []}
+    names = sorted({s.particle.name for t in r.transitions for e, s in t.states.items() if e not in t.topology.outgoing_edge_ids})
+    lvl = logging.root.manager.disable
+    logging.disable(logging.WARNING)
+    try:
+        b = R.apply_config(R.new_builder(r), r, cfg)
+        for nm in names:
+            b.dynamics.assign(nm, R.colliding_builder)
+        try:
+            with R.time_limit(60):
+                model = b.formulate()
+                return R.oracle(model)
+        except (R.CaseTimeout, *R.ERRS):
+            return []
+    finally:
+        logging.disable(lvl)
+
+
+def hash_sweep(R, chk, corpus, n: dict, seed: int, failures: list) -> None:
+    import os
+    import subprocess
+
+    rng = common.rng_for(PROP_ID, seed, "hashseed")
+    items, refs = [], []
+    names = ["jpsi_pi0pi0g_omega_hel", "jpsi_pi0pippim_hel", "d0_kskpkm_hel", "lc_pKpi_hel", "psi2s_ggjpsi_hel", "jpsi_gpi0pi0_can"]
+    for k in range(n["hash_cases"]):
+        name = names[k % len(names)]
+        r = corpus[name]
+        align = rng.choice(["n", "a", "d1", "d2"])
+        if R.unfold_cost(r, align) > n["cost_cap"]:
+            align = "n"
+        rr = R.relabel_for_dpd(r) if align.startswith("d") else r
+        cfg = R.random_config(rng, rr, align)
+        items.append({"corpus": name, "cfg": cfg})
+        ans, model = R.real_answer(rr, cfg)
+        refs.append(ans)
+    orders = [set() for _ in items]
+    disagreements = 0
+    for hs in n["hash_seeds"]:
+        env = {**os.environ, "PYTHONHASHSEED": str(hs)}
+        try:
+            p = subprocess.run([common.PY, str(common.ROOT / "tools" / "corr" / "C01_hashseed.py")], input=json.dumps(items),
+                               capture_output=True, text=True, timeout=600, env=env, cwd=str(common.ROOT))
+        except subprocess.TimeoutExpired as e:
+            raise common.InfraError("hash-seed worker timed out") from e
+        if p.returncode != 0:
+            chk.broken_correspondence("hash-seed worker", p.stderr[-400:])
+            return
+        res = json.loads(p.stdout)
+        for k, (item, ref, got) in enumerate(zip(items, refs, res)):
+            orders[k].add(tuple(got["order"]))
+            chk.count(("hashseed", hs, k))
+            canon = json.loads(json.dumps(ref, default=str))
+            if got["answer"] != canon:
+                disagreements += 1
+                failures.append({"input": {**item, "PYTHONHASHSEED": hs}, "failure": {"what": "symbol sets of the model depend on PYTHONHASHSEED"},
+                                 "class": "symbol sets of the model depend on PYTHONHASHSEED"})
+            for f in got["oracle"]:
+                failures.append({"input": {**item, "PYTHONHASHSEED": hs}, "failure": f, "class": f.get("what", "") + " (fresh process, other hash seed)"})
+    chk.info("hash_seed_sweep", {"seeds": n["hash_seeds"], "cases": len(items), "disagreements": disagreements,
+                                 "distinct_iteration_orders_observed": [len(o) for o in orders]})
+
+
 def reconcile_free(real: dict, lean: dict) -> tuple[dict, bool]:
     """SymPy cancels chains that are exactly opposite (identical-particle swap x parity partner with prefactor -1 in
     synthetic reactions): the model's free-symbol set is then a SUPERSET of the real one. Accepted iff every extra symbol
@@ -238,6 +335,8 @@ class C01Property:
             plan.append(("malformed", rng.getrandbits(48), None))
         for _ in range(n["four_axis"]):
             plan.append(("synthetic4axis", rng.getrandbits(48), None))
+        for name in corpus:
+            plan.append(("corpus_axis", rng.getrandbits(48), name))
         cases = []
         gen_errors = 0
         for kind, cs, name in plan:
@@ -293,6 +392,13 @@ class C01Property:
             if idx % 37 == 0:
                 chk.sample({"case": case_id(c), "reaction": d,
                             "real": {k: (len(v) if isinstance(v, (list, dict)) else v) for k, v in real.items()}})
+            if model is not None and idx % n["roundtrip_every"] == 0:
+                try:
+                    with R.time_limit(n["time_cap"]):
+                        orc = orc + R.roundtrip_checks(model)
+                    dist["roundtrips"] = dist.get("roundtrips", 0) + 1
+                except R.CaseTimeout:
+                    timeouts += 1
             for f in orc:
                 failures.append({"input": case_id(c), "reaction": d, "failure": f,
                                  "class": classify(f, cfg, d)})
@@ -310,6 +416,75 @@ class C01Property:
         chk.info("case_timeouts_skipped", timeouts)
         if cases and timeouts > len(cases) // 3:
             raise common.InfraError(f"{timeouts} of {len(cases)} cases hit the per-case time cap")
+
+        # ---- 5b. histories on ONE builder (rule 3): every formulate() of the sequence == the Lean model of the
+        #          effective configuration, == a fresh builder, and the oracle holds for the second / third model too
+        hrng = common.rng_for(PROP_ID, seed, "histories")
+        hist_lines, hist_meta = [], []
+        for _ in range(n["histories"]):
+            hs = hrng.getrandbits(48)
+            try:
+                hc = make_history(R, corpus, hs, n["cost_cap"])
+                with R.time_limit(n["time_cap"]):
+                    steps = R.real_history(hc["reaction"], hc["cfgs"])
+            except R.CaseTimeout:
+                timeouts += 1
+                continue
+            except Exception:  # noqa: BLE001
+                continue
+            tb = R.Tables(hc["reaction"])
+            for k, (eff, ans, orc) in enumerate(steps):
+                hist_lines.append(R.encode_case(variant, hc["reaction"], eff, tb))
+                hist_meta.append(({"history_seed": hs, "step": k, "cfgs": hc["cfgs"], "corpus": hc["corpus"]}, ans, R.describe(hc["reaction"])))
+                chk.count(("history", hs, k) if k >= 1 and "error" not in ans else None)
+                for f in orc:
+                    failures.append({"input": hist_meta[-1][0], "reaction": hist_meta[-1][2], "failure": f,
+                                     "class": f"formulate() number {k + 1} on one builder: " + classify(f, eff, hist_meta[-1][2])})
+        if hist_lines:
+            try:
+                h_out = common.lean_run(DRIVER, "\n".join(hist_lines) + "\n", timeout=1800).strip().split("\n")
+            except common.LeanRunError as e:
+                h_out = []
+                chk.broken_correspondence("lean driver (histories)", str(e)[-600:])
+            h_mism = 0
+            for (meta, ans, d), o in zip(hist_meta, h_out):
+                lean = R.parse_reply(o)
+                lean, _ = reconcile_free(ans, lean)
+                if lean != ans:
+                    h_mism += 1
+                    if h_mism <= 2:
+                        chk.broken_correspondence("history on one builder vs model of the effective configuration", {
+                            "case": meta, "reaction": d,
+                            "diff": diff_answers(ans, lean) if "error" not in ans and "error" not in lean and "bad" not in lean else {"real": str(ans)[:300], "lean": str(lean)[:300]}})
+            dist["history_steps"] = len(hist_meta)
+            dist["history_mismatches"] = h_mism
+
+        # ---- 5c. user builders whose parameter is NAMED like a kinematic variable (oracle only, symbol by symbol)
+        crng = common.rng_for(PROP_ID, seed, "collide")
+        n_coll = 0
+        for _ in range(n["collide"]):
+            cs = crng.getrandbits(48)
+            try:
+                c = make_case(R, corpus, crng.choice(["synthetic", "corpus"]), cs, n["cost_cap"], crng.choice(sorted(corpus)))
+                bad = collide_oracle(R, c)
+            except Exception:  # noqa: BLE001
+                continue
+            n_coll += 1
+            chk.count(("collide", cs))
+            for f in bad:
+                failures.append({"input": {**case_id(c), "builder": "colliding_builder on every decaying particle"},
+                                 "reaction": R.describe(c["reaction"]), "failure": f,
+                                 "class": "custom builder with a parameter named like a kinematic variable: " + f.get("what", "")})
+        dist["colliding_builder_cases"] = n_coll
+
+        # ---- 5d. fresh processes with different PYTHONHASHSEED (rule 6)
+        try:
+            hash_sweep(R, chk, corpus, n, seed, failures)
+        except common.InfraError:
+            raise
+        except Exception as e:  # noqa: BLE001
+            chk.broken_correspondence("hash-seed sweep", "".join(traceback.format_exception_only(type(e), e))[-400:])
+        chk.info("input_distribution", dist)
 
         # ---- 6. deeper oracle search when something is broken and no failing input is known yet
         if chk.broken and not failures:
@@ -424,7 +599,7 @@ def replay(rep: dict) -> int:
 PROP = C01Property()
 
 MANIFEST = {
-    "technique": "Lean 4 theorems about an executable builder model (symbol sets), T2 correspondence with the real formulate() on corpus + synthetic reactions x random configurations, independent oracle = the property statement on every real model",
+    "technique": "Lean 4 theorems about an executable builder model (symbol sets), T2 correspondence with the real formulate() on corpus + synthetic reactions x random configurations and on configuration HISTORIES driven through one builder, independent oracle = the property statement on every real model (also after pickle / rename_symbols round trips, with name-colliding custom builders, and in fresh processes with other PYTHONHASHSEED values)",
     "design_ref": "DESIGN.md §3 C01",
     "text": (
         "Proof. Model/C01Builder.lean follows formulate()/__register_amplitudes/__formulate_topology_amplitude/"
